@@ -324,9 +324,12 @@ func genC08Consensus(g *G) {
 
 func mercSelPool(g *G, opn string) []*big.Int {
 	if opn == "v4.marketstatus" {
-		return []*big.Int{big.NewInt(0), big.NewInt(1), big.NewInt(2), big.NewInt(3), new(big.Int).SetUint64(uint64(^uint32(0)))}
+		// incl. values that alias 1 and 2 under a narrower integer type (mod 2^8, 2^16, 2^24)
+		return []*big.Int{big.NewInt(0), big.NewInt(1), big.NewInt(2), big.NewInt(3), new(big.Int).SetUint64(uint64(^uint32(0))),
+			big.NewInt(257), big.NewInt(258), big.NewInt(65537), big.NewInt(1<<24 + 1), big.NewInt(513)}
 	}
-	p := []*big.Int{big.NewInt(-1), big.NewInt(-2), big.NewInt(0), big.NewInt(int64(g.R.Intn(1000))), big.NewInt(int64(g.R.Intn(1000))),
+	base := int64(g.R.Intn(1000))
+	p := []*big.Int{big.NewInt(base), big.NewInt(base + 1<<32), big.NewInt(base + 256), big.NewInt(base + 65536),big.NewInt(-1), big.NewInt(-2), big.NewInt(0), big.NewInt(int64(g.R.Intn(1000))), big.NewInt(int64(g.R.Intn(1000))),
 		big.NewInt(int64(^uint32(0))), big.NewInt(int64(^uint32(0)) - 1), big.NewInt(int64(^uint64(0) >> 1)), big.NewInt(-int64(^uint64(0)>>1) - 1)}
 	return p
 }
